@@ -24,7 +24,7 @@ ASSUMPTIONS = [
     "Line ends are LF. Bytes-per-line of a record's index entry is only compared when the record's first line is terminated by a newline.",
     "Every record is internally consistently wrapped (all lines but the last have the record's width), as faidx requires.",
 ]
-REQUIRED_CLASSES = ["multi-line", "last-line-full", "last-line-short", "single-line", "description", "interval-crosses-break", "interval-ends-at-break",
+REQUIRED_CLASSES = ["multi-line", "last-line-full", "last-line-short", "single-line", "description", "marker-character-in-description", "interval-crosses-break", "interval-ends-at-break",
                     "interval-starts-at-break", "supplied-index", "library-index", "fast-path-label-order-differs", "no-final-newline"]
 BOUNDS = {"quick": "exhaustive: 1 record L<=7 W<=8 and 2 records L<=4 W<=5, every interval; 450 sampled files; one 5.6 MB file (2 read chunks of create_index) and one 16 MB file (4 read chunks)",
           "thorough": "exhaustive: N<=2 L<=7 W<=8 and N=3 L<=4 W<=4; 2500 sampled files; one 5.2 MB file"}
@@ -67,6 +67,8 @@ def classify(case):
             cl.append("single-line")
         if desc:
             cl.append("description")
+            if ">" in desc:
+                cl.append("marker-character-in-description")
     for ri, a, b in case["intervals"]:
         name, desc, seq, w = case["records"][ri]
         if a // w != (b - 1) // w:
@@ -168,7 +170,7 @@ def core_cases(nrec, Lmax, Wmax, stride=1, offset=0):
             n += 1
             if (n + offset) % stride:
                 continue
-            recs = [["r%d" % i if i % 2 else "chr%d" % (i + 1), "a desc" if i == 0 else "", seq_of(L, i), W] for i, (L, W) in enumerate(zip(Ls, Ws))]
+            recs = [["r%d" % i if i % 2 else "chr%d" % (i + 1), "a>desc" if i == 0 else "", seq_of(L, i), W] for i, (L, W) in enumerate(zip(Ls, Ws))]
             ivs = [[i, a, b] for i, L in enumerate(Ls) for a in range(L) for b in range(a + 1, L + 1)]
             for index, final_nl in (("library", True), ("supplied", True), ("library", False)):
                 case = {"records": recs, "intervals": ivs, "index": index, "final_nl": final_nl}
@@ -192,7 +194,7 @@ def sampled_case(draw, Lmax, Wmax):
         L = draw(st.one_of(st.integers(1, Lmax), st.sampled_from([w, 2 * w, 3 * w, w + 1, max(1, w - 1), 2 * w + 1])))
         L = max(1, min(L, Lmax))
         name = draw(st.sampled_from(["chr", "c", "seq_", "X"])) + str(i)
-        recs.append([name, draw(st.sampled_from(["", "", "some description", "len=5 x"])), draw(st.text(alphabet="ACGTNacgt", min_size=L, max_size=L)), w])
+        recs.append([name, draw(st.sampled_from(["", "", "some description", "len=5 x", "variant=A>G in exon 2", "a>b >c", ">"])), draw(st.text(alphabet="ACGTNacgt", min_size=L, max_size=L)), w])
     ivs = []
     for _ in range(draw(st.integers(0, 8))):
         ri = draw(st.integers(0, n - 1))
